@@ -181,7 +181,8 @@ impl BAct {
 pub struct EncCase {
     pub ka: bool,
     pub req: ReqSpec,
-    /// a later pipelined request decoded before the response is encoded (F12 window)
+    /// a second request decoded before the response is encoded: the response answers this one
+    /// (the codec keeps the context of the request decoded last)
     #[serde(default)]
     pub later: Option<ReqSpec>,
     pub resp: RespSpec,
@@ -192,6 +193,13 @@ pub struct EncCase {
     /// send Message::Chunk(None) at the end
     #[serde(default)]
     pub eof: bool,
+}
+
+impl EncCase {
+    /// the request the response answers: the one decoded last
+    pub fn own(&self) -> &ReqSpec {
+        self.later.as_ref().unwrap_or(&self.req)
+    }
 }
 
 #[derive(Serialize, Deserialize, Clone, Debug)]
